@@ -174,15 +174,17 @@ CHECKS = {
              "operation, fragments-must-be-used and spread-target-defined (the spread list the rules read is the document's), "
              "values of correct type at every depth (nested induction, self-referential input types), argument names, "
              "required arguments, directive locations, field-exists / leaf-selection, type conditions, and the whole field "
-             "node. The check "
+             "node; and ACCEPTANCE CHARACTERISED (accepted_characterised): accepted <-> every node of every selection tree "
+             "satisfies the specification's node predicates with the scope handed down /\\ acyclic /\\ unique names /\\ lone "
+             "anonymous /\\ spread targets defined /\\ fragments used /\\ five rule functions quiet. The check "
              "generates structured valid documents (fragment DAGs with sharing, several named operations reaching shared "
              "fragments by different routes, variables only inside fragments, directives in all 7 executable locations, "
              "meta-fields and introspection selections, identical repeated fields, one-key subscriptions) on generated schemas; "
              "inside Coq every document must satisfy all 25 specification predicates (else the generator is at fault) and the "
              "implementation model's error set must equal the engine's; the engine must not answer with any rule-tagged or "
              "generic validation error. PARTIAL: spec_valid -> accepted for all rules together is decided per document, not "
-             "proved (what remains: lifting the per-site equivalences over all sites, single-root, possible spreads, the three "
-             "variable rules).",
+             "proved (what remains: single-root, possible spreads and the three variable rules against their specification "
+             "predicates; the node predicates use the engine's field lookup).",
         note="Trusted: Coq kernel, generators, parser stand-in (which texts parse, locations), scalar translator for literal "
              "leaves. Field-selection-merging (5.3.2) is not implemented by the engine; generated documents satisfy it by "
              "construction.",
@@ -206,7 +208,10 @@ CHECKS = {
              "call sites the model transcribes, only the cycle rule aborting. Also proved complete against the "
              "specification: lone-anonymous, fragments-must-be-used, spread-target-defined, values of correct type at every "
              "depth (a rejected literal makes the rule raise or report and the walk refuse), unknown argument, missing "
-             "required argument, misplaced directive; and acceptance is the conjunction of all rules being quiet. Two "
+             "required argument, misplaced directive; acceptance is the conjunction of all rules being quiet; and "
+             "C07_violating_document_refused: a document with any node violating a node predicate at any depth, a cyclic "
+             "fragment graph, a repeated name, a second anonymous operation, an undefined spread target or an unused fragment "
+             "is not accepted. Two "
              "recorded findings (known_findings.json) are attributed by Coq-evaluated region predicates. PARTIAL: completeness "
              "of the other rules at every site is decided per document, not proved.",
         note="Trusted: as C06. Documents with non-executable definitions are outside the document model (engine side only).",
